@@ -83,6 +83,8 @@ def set_global_state(name):
 
 def seed(s=None):
     global GLOBAL
+    if isinstance(s, np.npinteger):
+        s = s.v
     if s is None:
         _fresh[0] += 1
         GLOBAL = _Stream(z3.Const('Gentropy!%d' % _fresh[0], RngState), 'global')
@@ -487,6 +489,8 @@ _gen_count = [0]
 def default_rng(seed=None):
     if isinstance(seed, Generator):
         return seed
+    if isinstance(seed, np.npinteger):
+        seed = seed.v
     _gen_count[0] += 1
     if seed is None:
         _fresh[0] += 1
